@@ -695,7 +695,8 @@ func (h *hist) lock(c *client, p lockParams) *lockState {
 	openSeq, lockSeq := uint32(11), uint32(22)
 	openTx, lockTx := false, false
 	existingLS := false
-	lc := c // client that the lock-owner belongs to
+	redundant := false // new_lock_owner = TRUE for a lock-owner that already has lock state on this open
+	lc := c            // client that the lock-owner belongs to
 	predictState := func() nfsv4.Nfsstat4 {
 		if p.newOwner {
 			lo = c.lockOwners[p.loKey]
@@ -708,6 +709,7 @@ func (h *hist) lock(c *client, p lockParams) *lockState {
 				if lo != nil {
 					if x, ok := os.locks[lo]; ok {
 						ls, existingLS = x, true
+						redundant = true
 					}
 				}
 				return nfsv4.NFS4_OK
@@ -741,10 +743,16 @@ func (h *hist) lock(c *client, p lockParams) *lockState {
 			}
 			lo = lc.lockOwners[p.loKey]
 			if lo != nil && lo.known {
+				// The lock seqid is in order even if the request
+				// is about to be refused for another reason.
+				lockSeq = nextSeq(lo.seqid) + p.lockSeqDelta
 				if _, ok := lo.states[os]; ok {
+					// The lock-owner already has lock state on
+					// this open: the client should have sent
+					// new_lock_owner = FALSE.
+					redundant = true
 					return nfsv4.NFS4ERR_BAD_SEQID
 				}
-				lockSeq = nextSeq(lo.seqid) + p.lockSeqDelta
 				if p.lockSeqDelta != 0 {
 					return nfsv4.NFS4ERR_BAD_SEQID
 				}
@@ -788,6 +796,12 @@ func (h *hist) lock(c *client, p lockParams) *lockState {
 		// Whether the range conflicts with another owner's lock is
 		// property C20's business: follow the reply.
 		want = []nfsv4.Nfsstat4{nfsv4.NFS4_OK, nfsv4.NFS4ERR_DENIED}
+		if p.rangeIdx == invalidRange {
+			want = []nfsv4.Nfsstat4{nfsv4.NFS4ERR_INVAL}
+		}
+	}
+	if redundant {
+		h.sit("lock-with-new-lock-owner-flag-for-owner-that-has-lock-state-on-the-open")
 	}
 	lt := nfsv4.READ_LT
 	if p.write {
@@ -930,6 +944,9 @@ func (h *hist) unlock(c *client, sid nfsv4.Stateid4, fh fhRef, rangeIdx int, seq
 		return st
 	}
 	want := predict()
+	if want == nfsv4.NFS4_OK && rangeIdx == invalidRange {
+		want = nfsv4.NFS4ERR_INVAL
+	}
 	rg := lockRanges[rangeIdx]
 	rr := h.send(c, fmt.Sprintf("LOCKU sid=%s fh=%s range=%d seq=%d (%s)", sidString(sid), fh, rangeIdx, seq, variant), fh, 0,
 		&nfsv4.NfsArgop4_OP_LOCKU{Oplocku: nfsv4.Locku4args{Locktype: nfsv4.READ_LT, Seqid: seq, LockStateid: sid, Offset: rg.off, Length: rg.len}})
@@ -1190,4 +1207,38 @@ func (h *hist) probe(c *client, l *fakeLeaf) {
 			}
 		}
 	}
+}
+
+// lockt sends LOCKT. It creates no state; in NFSv4.0 it takes and
+// releases a hold on the client record.
+func (h *hist) lockt(c *client, fh fhRef, loKey string, rangeIdx int, write bool) {
+	var want []nfsv4.Nfsstat4
+	switch {
+	case fh.kind == 0:
+		want = []nfsv4.Nfsstat4{nfsv4.NFS4ERR_NOFILEHANDLE}
+	case fh.kind == 1:
+		want = []nfsv4.Nfsstat4{nfsv4.NFS4ERR_ISDIR}
+	case c.ver == 0 && c.cur == nil:
+		want = []nfsv4.Nfsstat4{nfsv4.NFS4ERR_STALE_CLIENTID}
+	case rangeIdx == invalidRange:
+		want = []nfsv4.Nfsstat4{nfsv4.NFS4ERR_INVAL}
+	default:
+		want = []nfsv4.Nfsstat4{nfsv4.NFS4_OK, nfsv4.NFS4ERR_DENIED}
+	}
+	lt := nfsv4.READ_LT
+	if write {
+		lt = nfsv4.WRITE_LT
+	}
+	rg := lockRanges[rangeIdx]
+	rr := h.send(c, fmt.Sprintf("LOCKT owner=%s fh=%s range=%d write=%v", loKey, fh, rangeIdx, write), fh, 0,
+		&nfsv4.NfsArgop4_OP_LOCKT{Oplockt: nfsv4.Lockt4args{
+			Locktype: lt, Offset: rg.off, Length: rg.len,
+			Owner: nfsv4.LockOwner4{Clientid: c.clientID(), Owner: []byte(loKey)},
+		}})
+	if !rr.ok {
+		return
+	}
+	h.expect(c, "LOCKT", "valid", rr.st, want...)
+	h.noEventsAlways(c, "LOCKT", "valid", rr)
+	h.sit("lockt")
 }
